@@ -93,6 +93,7 @@ func (d *deadStream) Error() string {
 
 type closeEv struct {
 	owner      string // transport that closed its end: a | b
+	wasCached  bool   // the closing transport had this connection in its cache when it closed it
 	link, side int
 	code       uint64
 	msg        string
@@ -141,6 +142,7 @@ func body(res *hcommon.RunResult, p *plan) {
 	defer cancel()
 	var mu sync.Mutex
 	var closes []closeEv
+	var sidesRef []*side
 	quic.Yield = simrt.Yield
 	quic.Go = func(name string, f func()) { simrt.GoGroup(name, "", f) }
 	quic.CloseDelay = func() time.Duration { return time.Duration(p.CloseMs) * time.Millisecond }
@@ -150,7 +152,17 @@ func body(res *hcommon.RunResult, p *plan) {
 		if u, ok := c.LocalAddr().(*net.UDPAddr); ok && u.Port == 10002 {
 			owner = "b"
 		}
-		closes = append(closes, closeEv{owner: owner, link: c.LinkID(), side: c.Side(), code: uint64(code), msg: msg, step: simrt.Steps()})
+		wasCached := false
+		for _, s := range sidesRef {
+			if s != nil && s.name == owner {
+				for _, e := range s.t.VerifCached() {
+					if e.Conn == c {
+						wasCached = true
+					}
+				}
+			}
+		}
+		closes = append(closes, closeEv{owner: owner, wasCached: wasCached, link: c.LinkID(), side: c.Side(), code: uint64(code), msg: msg, step: simrt.Steps()})
 		mu.Unlock()
 		simrt.Event("close link=%d end=%d code=%d %s", c.LinkID(), c.Side(), code, msg)
 	}
@@ -185,6 +197,7 @@ func body(res *hcommon.RunResult, p *plan) {
 	}
 	a, b := mk("a", 10001), mk("b", 10002)
 	sides := []*side{a, b}
+	sidesRef = sides
 	// dial opens a stream from one side to the other and exchanges one message over it
 	// closedByNegotiation reports whether the connection was closed by the reuse negotiation
 	// (and not by the harness, by Stop or by the reaper following another close)
@@ -324,13 +337,11 @@ func body(res *hcommon.RunResult, p *plan) {
 	for i, e := range errs {
 		if ds, ok := e.(*deadStream); ok {
 			class := "returned-connection-dead"
-			// crossed reuse: the other peer dropped this connection in favour of another one, which this
-			// peer in turn dropped in favour of this one (both opened a connection at the same time)
-			for _, o := range negotiationCloses {
-				if o.link != ds.link && o.code == 508 && o.owner == ds.caller && ds.by.owner == ds.peer && ds.by.code == 508 {
-					class += "/crossed-simultaneous-open"
-					break
-				}
+			// simultaneous open: the other peer, negotiating this connection as a fresh one, dropped it because it
+			// had meanwhile stored another connection (code 508 on a connection it had not cached): known finding.
+			// A peer that closes a connection it had already cached is a different matter.
+			if ds.by.code == 508 && ds.by.owner == ds.peer && !ds.by.wasCached {
+				class += "/simultaneous-open"
 			}
 			res.Violate("C41", class, "dial %d (%s) was given a connection by the negotiation, but the stream on it did not work: %v; closes during the negotiation: %+v", i, []string{"A->B", "B->A"}[p.Dials[i].From], e, negotiationCloses)
 		}
